@@ -1,19 +1,19 @@
-\* C03 fault-free: two pollers, r1 is stopped (kill and reroute)
+\* C06: ONE runner (poller + its worker threads), keyed single-call submissions: OneRunningPerKey must hold
 SPECIFICATION Spec
 CONSTANTS
   Inv = {"i1", "i2"}
   Runner = {"r1", "r2"}
   Client = {"c1"}
-  Key <- KeyNone
-  Mode = "disabled"
+  Key <- KeySame
+  Mode = "keys"
   RerouteOnCC = TRUE
   MaxRetries = 1
-  Outcome <- RetryOk
+  Outcome <- AllOk
   Submissions <- SubMix
-  PollN = 1
-  Pollers = {"r1", "r2"}
+  PollN = 2
+  Pollers = {"r1"}
   Recoverers = {}
-  Stoppable = {"r1"}
+  Stoppable = {}
   MaxCrashes = 0
   TrackHist = FALSE
   RecoveryAbortsOnLostRace = FALSE
@@ -21,9 +21,9 @@ CONSTANTS
 CONSTRAINT Bounded
 INVARIANT TypeOK
 INVARIANT NoStranded
+INVARIANT OneRunningPerKey
 INVARIANT SuccessHasResult
 INVARIANT FailedHasException
 INVARIANT ChangeLogIsPath
-INVARIANT StoppedLeavesNothing
 PROPERTY CoreFollowsEdge
 PROPERTY CoreFinalAbsorbing
